@@ -82,7 +82,88 @@ func (p *TypeInfoAmd64) IsWrapType(ctx llvm.Context, ftyp llvm.Type, typ llvm.Ty
 	return elementTypesCount(typ) >= 2
 }
 
+// elementOffsets returns the byte offset of every scalar leaf of typ, in the
+// order of elementTypes, using the real layout (nested aggregates keep their
+// own alignment and tail padding).
+func elementOffsets(td llvm.TargetData, typ llvm.Type, base uint64) (offs []uint64) {
+	switch typ.TypeKind() {
+	case llvm.VoidTypeKind:
+	case llvm.StructTypeKind:
+		for i, t := range typ.StructElementTypes() {
+			offs = append(offs, elementOffsets(td, t, base+td.ElementOffset(typ, i))...)
+		}
+	case llvm.ArrayTypeKind:
+		elem := typ.ElementType()
+		size := td.TypeAllocSize(elem)
+		n := typ.ArrayLength()
+		for i := 0; i < n; i++ {
+			offs = append(offs, elementOffsets(td, elem, base+uint64(i)*size)...)
+		}
+	default:
+		offs = append(offs, base)
+	}
+	return
+}
+
 func (p *TypeInfoAmd64) GetTypeInfo(ctx llvm.Context, ftyp llvm.Type, typ llvm.Type, index int) *TypeInfo {
+	info := p.classify(ctx, typ)
+	if index > 0 && info.Kind == AttrWidthType2 && ftyp.TypeKind() == llvm.FunctionTypeKind {
+		// System V: an aggregate is passed in registers only if all of its
+		// eightbytes get one; otherwise the whole aggregate goes to memory.
+		freeInt, freeSSE := 6, 8
+		if ret := ftyp.ReturnType(); ret.TypeKind() != llvm.VoidTypeKind && p.Sizeof(ret) != 0 {
+			if p.classify(ctx, ret).Kind == AttrPointer {
+				freeInt--
+			}
+		}
+		params := ftyp.ParamTypes()
+		for i := 0; i < index-1 && i < len(params); i++ {
+			if p.Sizeof(params[i]) == 0 {
+				continue
+			}
+			ni, ns := p.regsNeeded(p.classify(ctx, params[i]))
+			if ni <= freeInt && ns <= freeSSE {
+				freeInt -= ni
+				freeSSE -= ns
+			}
+		}
+		if ni, ns := p.regsNeeded(info); ni > freeInt || ns > freeSSE {
+			info.Kind = AttrPointer
+			info.Type1 = llvm.PointerType(typ, 0)
+			info.Type2 = llvm.Type{}
+		}
+	}
+	return info
+}
+
+// regsNeeded returns the number of INTEGER and SSE argument registers that a
+// classified parameter occupies when it is passed in registers.
+func (p *TypeInfoAmd64) regsNeeded(info *TypeInfo) (nint, nsse int) {
+	count := func(t llvm.Type) {
+		switch t.TypeKind() {
+		case llvm.FloatTypeKind, llvm.DoubleTypeKind, llvm.VectorTypeKind:
+			nsse++
+		default:
+			nint++
+		}
+	}
+	switch info.Kind {
+	case AttrVoid, AttrPointer:
+	case AttrWidthType2:
+		count(info.Type1)
+		count(info.Type2)
+	default:
+		// scalars and single-element aggregates ({double}, [1]float, ...)
+		if types := elementTypes(p.td, info.Type1); len(types) == 1 {
+			count(types[0])
+		} else {
+			count(info.Type1)
+		}
+	}
+	return
+}
+
+func (p *TypeInfoAmd64) classify(ctx llvm.Context, typ llvm.Type) *TypeInfo {
 	info := &TypeInfo{}
 	info.Type = typ
 	info.Type1 = typ
@@ -114,19 +195,14 @@ func (p *TypeInfoAmd64) GetTypeInfo(ctx llvm.Context, ftyp llvm.Type, typ llvm.T
 					return info
 				}
 			}
-			var offset int
-			var index int
-			for i, et := range types {
-				align := p.Alignof(et)
-				offset = (offset + p.Sizeof(et) + align - 1) &^ (align - 1)
-				if offset < 8 {
-					continue
-				} else if offset > 8 {
+			// split at the eightbyte boundary using the real leaf offsets
+			offs := elementOffsets(p.td, typ, 0)
+			index := len(types)
+			for i, off := range offs {
+				if off >= 8 {
 					index = i
-				} else {
-					index = i + 1
+					break
 				}
-				break
 			}
 			subType := func(subs []llvm.Type, left bool) llvm.Type {
 				if len(subs) == 1 {
@@ -137,13 +213,7 @@ func (p *TypeInfoAmd64) GetTypeInfo(ctx llvm.Context, ftyp llvm.Type, typ llvm.T
 				if left {
 					return ctx.Int64Type()
 				}
-				var n int
-				for _, sub := range subs {
-					align := p.Alignof(sub)
-					n = (n + p.Sizeof(sub) + align - 1) &^ (align - 1)
-				}
-				n = (n + info.Align - 1) &^ (info.Align - 1)
-				return ctx.IntType(n * 8)
+				return ctx.IntType((info.Size - 8) * 8)
 			}
 			info.Kind = AttrWidthType2
 			info.Type1 = subType(types[0:index], true)
